@@ -21,6 +21,8 @@ func init() {
 }
 
 func runC14(c *Ctx) {
+	c.R.Rule("R12-status-only-after-error", "provider code consults Result.StatusCode() only on paths where Result.Error() was found nil: with no response at all the status is 0 (round 8)", 2)
+	runStatusOnlyAfterError(c, "R12-status-only-after-error")
 	c.R.Rule("RS-no-request-time-state", "request handling writes no state that outlives the request (package-level variables, objects built at start-up, constructor variables captured by handlers) declared in the packages implementing this property", 1)
 	runStateless(c, "RS-no-request-time-state", "providers", "pkg/providers", "pkg/requests")
 	r := c.R
